@@ -146,6 +146,15 @@ Theorem C17_nmap_valid_cases : forall pton6 ip_address s,
 Proof. exact valid_cases. Qed.
 Print Assumptions C17_nmap_valid_cases.
 
+(* the probe the correspondence uses for CIDR targets of any size observes the generator faithfully: same validity
+   flag, same error, and exactly its first three addresses *)
+Theorem C17_nmap_cidr_probe : forall pton6 ip_address s, contains_char ch_slash s = true ->
+  fst (cidr_probe pton6 s) = firstn 3 (fst (parse_nmap_target_spec pton6 ip_address s)) /\
+  snd (cidr_probe pton6 s) = snd (parse_nmap_target_spec pton6 ip_address s) /\
+  valid_of_gen (cidr_probe pton6 s) = valid_nmap_range pton6 ip_address s.
+Proof. exact cidr_probe_ok. Qed.
+Print Assumptions C17_nmap_cidr_probe.
+
 (* one octet specification: a non-empty strictly ascending list of octets, exactly the values its comma-separated
    elements denote (numbers; ranges with optional ends, '-n' = 0..n, 'n-' = n..255, '-' = 0..255) *)
 Theorem C17_nmap_octet_set : forall spec l, nmap_octet_target_values spec = Ok l ->
